@@ -81,7 +81,13 @@ func c06gen(rng *rand.Rand, hp *Pool, cat []catEntry) c06op {
 	all := hp.Vals
 	n := func(fam ...string) string { return c06pick(rng, all, fam...).Name }
 	small := func() string { return fmt.Sprint(rng.Intn(7) - 3) }
-	switch rng.Intn(23) {
+	switch rng.Intn(25) {
+	case 23, 24:
+		// compound assignment on a variable that aliases an earlier value: the variable changes, the value does not
+		v := n("arr", "str", "int", "obj", "map", "float")
+		rhs := []string{"[1]", "[x]", "\"z\"", "1", "2", "[[1]]", "{q: 1}", "x"}[rng.Intn(8)]
+		op := []string{"+", "+", "+", "*", "-", "||", "&&", "<<"}[rng.Intn(8)]
+		return c06op{"compound assignment " + op + "=", fmt.Sprintf("{|x| t := %s; t %s= %s; t %s= %s; [t, x]}(%s)", v, op, rhs, op, rhs, n())}
 	case 21, 22:
 		// values handed to the steps of one chain (the [acc, elem] pair of a reduce step, the argument list, the
 		// element captured by a closure) are kept and must still print at the end what they printed in their step
@@ -197,6 +203,40 @@ func runC06(w *fw.W) {
 	var ip *interp.Interp
 	var pool *Pool
 	var cat []catEntry
+	// values read from standard input are values like any other: lines kept while more input is read (past
+	// any buffer size of the reader) still are what was read
+	for _, nlines := range []int{3, 120, 400, 3000} {
+		if !w.Take() {
+			continue
+		}
+		if ip == nil {
+			ip = interp.New()
+			pool, _ = BuildPool(ip, false)
+			cat = c01catalogue(ip)
+		}
+		w.Begin(fmt.Sprintf("stdin lines kept: %d lines", nlines), map[string]any{"lines": nlines})
+		var vs violSet
+		var in strings.Builder
+		var want []string
+		for i := 0; i < nlines; i++ {
+			l := fmt.Sprintf("row %04d %s", i, strings.Repeat(string(rune('a'+i%26)), 5+i%37))
+			in.WriteString(l + "\n")
+			want = append(want, `"`+l+`"`)
+		}
+		wantIns := "[" + strings.Join(want, ", ") + "]"
+		n := 0
+		for _, prog := range []string{"<>@{\\}", "<>$([]){|acc, l| [*acc, l]}", "<>@{|l| [l]}@{|a| a[0]}", "keep := []\n<>@{|l| keep := [l]; l}",
+			"first := <>.S\nrest := <>@{\\}\n[first, *rest]", "<>@{|l| {line: l}}@{|o| o.line}", "<>@{|l| l + \"\"}"} {
+			o := ip.Run(prog, interp.Options{Stdin: strings.NewReader(in.String()), Fuel: -1})
+			n++
+			if !o.OK() || o.Inspect != wantIns {
+				vs.add("C06|stdin-line-changed-after-being-read", fmt.Sprintf("program `%s` over %d stdin lines: the kept lines are not the lines read: got %s", prog, nlines, truncateMid(o.Outcome(), 300)), map[string]any{"program": prog, "lines": nlines})
+			}
+		}
+		r := fw.Result{Verdict: fw.Held, Evals: n, Counters: map[string]int{"stdin_retention_programs": n}, DKeys: []string{fmt.Sprintf("stdin-lines|%d", nlines)}}
+		vs.finish(&r)
+		w.End(r)
+	}
 	nh := w.Pick(480, 16000)
 	for h := 0; h < nh; h++ {
 		if !w.Take() {
